@@ -129,11 +129,7 @@ func c04SelfTest() error {
 	}
 	expiry := "\tif !pin.ExpireAt.IsZero() && pin.ExpireAt.Before(time.Now()) {\n\t\treturn errors.New(\"pin.ExpireAt set before current time\")\n\t}\n\n"
 	nilchk := "\tif existing == nil {\n\t\treturn nil\n\t}\n\n"
-	muts := []struct {
-		name, fn, old, new string
-		has, hasNot, wantErr string
-		at                   int // index where `has` must be (-1: anywhere)
-	}{
+	muts := []c04SelfMut{
 		{"two guards swapped", "setupPin", expiry + nilchk, nilchk + expiry, `SGuard (GIsNil WExisting) Accept`, "", "", 1},
 		{"follower guard dropped", "Unpin", "\tif c.config.FollowerMode {\n\t\treturn nil, errFollowerMode\n\t}\n", "", `SGuard (GFails "PinGet") (Refuse "ENotFound")`, "GFollower", "", 0},
 		{"or for and", "setupPin", "existing.Mode == api.PinModeRecursive && pin.Mode", "existing.Mode == api.PinModeRecursive || pin.Mode",
@@ -155,11 +151,24 @@ func c04SelfTest() error {
 		{"switch over something else", "Unpin", "switch pin.Type {", "switch pin.Mode {", "", "", "switch over something else", 0},
 		{"goto", "Unpin", "\tlogger.Info(", "\tgoto end\n\tlogger.Info(", "", "", "statement not understood", 0},
 	}
+	if err := c04SelfMutants(c04SelfBase, want, muts); err != nil {
+		return err
+	}
+	return c04SelfTestHelpers()
+}
+
+type c04SelfMut struct {
+	name, fn, old, new   string
+	has, hasNot, wantErr string
+	at                   int // index where `has` must be (-1: anywhere)
+}
+
+func c04SelfMutants(src string, want map[string][]string, muts []c04SelfMut) error {
 	for _, m := range muts {
-		if strings.Count(c04SelfBase, m.old) != 1 {
-			return fmt.Errorf("mutant %q: anchor not unique (%d)", m.name, strings.Count(c04SelfBase, m.old))
+		if strings.Count(src, m.old) != 1 {
+			return fmt.Errorf("mutant %q: anchor not unique (%d)", m.name, strings.Count(src, m.old))
 		}
-		got, err := c04SelfSteps(strings.Replace(c04SelfBase, m.old, m.new, 1), m.fn)
+		got, err := c04SelfSteps(strings.Replace(src, m.old, m.new, 1), m.fn)
 		if m.wantErr != "" {
 			if err == nil {
 				return fmt.Errorf("mutant %q: accepted", m.name)
@@ -187,4 +196,133 @@ func c04SelfTest() error {
 		}
 	}
 	return nil
+}
+
+// Extracted helpers: pinEx is pinIn with the follower guard, the same-options condition and the allocation block moved into
+// a method, a package-level predicate and a method (parameters renamed). Both must give exactly the same steps; a helper or
+// a call site that is changed must give different steps or be refused.
+const c04SelfHelpers = `package p
+
+func (c *Cluster) pinIn(ctx context.Context, pin, existing *api.Pin, blacklist []peer.ID) (*api.Pin, bool, error) {
+	if c.config.FollowerMode {
+		return nil, false, errFollowerMode
+	}
+	if existing != nil && pin.PinOptions.Equals(&existing.PinOptions) && len(blacklist) == 0 {
+		pin = existing
+	}
+	if len(pin.Allocations) == 0 {
+		allocs, err := c.allocate(ctx, pin.Cid, existing, blacklist)
+		if err != nil {
+			return pin, false, err
+		}
+		pin.Allocations = allocs
+	}
+	return pin, true, c.consensus.LogPin(ctx, pin)
+}
+
+func (c *Cluster) pinEx(ctx context.Context, pin, existing *api.Pin, blacklist []peer.ID) (*api.Pin, bool, error) {
+	err := c.writable()
+	if err != nil {
+		return nil, false, err
+	}
+	if sameRequest(pin, existing, blacklist) {
+		pin = existing
+	}
+	err = c.fillAllocations(ctx, pin, existing, blacklist)
+	if err != nil {
+		return pin, false, err
+	}
+	return pin, true, c.consensus.LogPin(ctx, pin)
+}
+
+func (c *Cluster) writable() error {
+	if c.config.FollowerMode {
+		return errFollowerMode
+	}
+	return nil
+}
+
+func sameRequest(p, old *api.Pin, avoid []peer.ID) bool {
+	if old == nil {
+		return false
+	}
+	return p.PinOptions.Equals(&old.PinOptions) && len(avoid) == 0
+}
+
+func (cl *Cluster) fillAllocations(ctx context.Context, p, old *api.Pin, avoid []peer.ID) error {
+	if len(p.Allocations) != 0 {
+		return nil
+	}
+	allocs, err := cl.allocate(ctx, p.Cid, old, avoid)
+	if err != nil {
+		return err
+	}
+	p.Allocations = allocs
+	return nil
+}
+`
+
+func c04SelfTestHelpers() error {
+	inline := []string{
+		`SGuard GFollower (Refuse "EFollower")`,
+		`SEffect (GAnd (GAnd (GNot (GIsNil WExisting)) GOptsEqual) (GEq ZLenBlacklist (ZK 0))) [EUseExisting]`,
+		`SGuard (GAnd (GEq ZLenAllocs (ZK 0)) (GFails "allocate")) (Refuse "EAlloc")`,
+		`SEffect (GEq ZLenAllocs (ZK 0)) [ESetAllocs]`,
+		`SGuard (GBool true) (Commit "LogPin")`}
+	want := map[string][]string{"pinIn": inline, "pinEx": inline}
+	for fn, w := range want {
+		got, err := c04SelfSteps(c04SelfHelpers, fn)
+		if err != nil {
+			return fmt.Errorf("helpers %s: %v", fn, err)
+		}
+		if strings.Join(got, "\n") != strings.Join(w, "\n") {
+			return fmt.Errorf("helpers %s: got\n%s", fn, strings.Join(got, "\n"))
+		}
+	}
+	call := "\terr = c.fillAllocations(ctx, pin, existing, blacklist)\n\tif err != nil {\n\t\treturn pin, false, err\n\t}\n"
+	muts := []c04SelfMut{
+		{"predicate body: or for and", "pinEx", "&old.PinOptions) && len(avoid)", "&old.PinOptions) || len(avoid)",
+			`SEffect (GAnd (GNot (GIsNil WExisting)) (GOr GOptsEqual (GEq ZLenBlacklist (ZK 0)))) [EUseExisting]`, "", "", 1},
+		{"predicate body: conjunct dropped", "pinEx", "&old.PinOptions) && len(avoid) == 0", "&old.PinOptions)",
+			`SEffect (GAnd (GNot (GIsNil WExisting)) GOptsEqual) [EUseExisting]`, "ZLenBlacklist", "", 1},
+		{"predicate body: nil test dropped", "pinEx", "\tif old == nil {\n\t\treturn false\n\t}\n", "",
+			`SEffect (GAnd GOptsEqual (GEq ZLenBlacklist (ZK 0))) [EUseExisting]`, "GIsNil", "", 1},
+		{"predicate body: nil test returns true", "pinEx", "\tif old == nil {\n\t\treturn false\n", "\tif old == nil {\n\t\treturn true\n",
+			`SEffect (GOr (GIsNil WExisting) (GAnd GOptsEqual (GEq ZLenBlacklist (ZK 0)))) [EUseExisting]`, "", "", 1},
+		{"predicate call negated", "pinEx", "if sameRequest(pin, existing, blacklist) {", "if !sameRequest(pin, existing, blacklist) {",
+			`SEffect (GNot (GAnd (GAnd (GNot (GIsNil WExisting)) GOptsEqual) (GEq ZLenBlacklist (ZK 0)))) [EUseExisting]`, "", "", 1},
+		{"predicate arguments swapped at the call", "pinEx", "sameRequest(pin, existing, blacklist)", "sameRequest(existing, pin, blacklist)", "", "", "condition not followed", 0},
+		{"helper drops the follower guard", "pinEx", "\tif c.config.FollowerMode {\n\t\treturn errFollowerMode\n\t}\n", "",
+			`SEffect (GAnd (GAnd (GNot (GIsNil WExisting)) GOptsEqual) (GEq ZLenBlacklist (ZK 0))) [EUseExisting]`, "GFollower", "", 0},
+		{"helper drops the allocations guard", "pinEx", "\tif len(p.Allocations) != 0 {\n\t\treturn nil\n\t}\n", "",
+			`SGuard (GFails "allocate") (Refuse "EAlloc")`, "ZLenAllocs", "", 2},
+		{"helper guard negated", "pinEx", "if len(p.Allocations) != 0 {", "if len(p.Allocations) == 0 {",
+			`SGuard (GAnd (GNot (GEq ZLenAllocs (ZK 0))) (GFails "allocate")) (Refuse "EAlloc")`, "", "", 2},
+		{"helper forgets to store the allocations", "pinEx", "\tp.Allocations = allocs\n", "", `SGuard (GBool true) (Commit "LogPin")`, "ESetAllocs", "", 3},
+		{"helper called with pin and existing swapped", "pinEx", "c.fillAllocations(ctx, pin, existing, blacklist)", "c.fillAllocations(ctx, existing, pin, blacklist)", "", "", "condition not followed", 0},
+		{"caller ignores the helper's error (call statement)", "pinEx", call, "\tc.fillAllocations(ctx, pin, existing, blacklist)\n", "", "", "its error is not bound to err", 0},
+		{"caller ignores the helper's error (blank)", "pinEx", call, "\t_ = c.fillAllocations(ctx, pin, existing, blacklist)\n", "", "", "its error is not bound to err", 0},
+		{"caller does not check the helper's error at once", "pinEx", call, "\terr = c.fillAllocations(ctx, pin, existing, blacklist)\n\tlogger.Info(err)\n", "", "", "not followed by", 0},
+		{"caller checks the helper's error but goes on", "pinEx", call, "\terr = c.fillAllocations(ctx, pin, existing, blacklist)\n\tif err != nil {\n\t\tlogger.Info(err)\n\t}\n", "", "", "not followed by", 0},
+		{"helper called under a condition", "pinEx", call, "\tif !pin.IsPinEverywhere() {\n\t" + strings.ReplaceAll(call, "\n\t", "\n\t\t") + "\t}\n", "", "", "under a condition", 0},
+		{"recursive predicate", "pinEx", "return p.PinOptions.Equals(&old.PinOptions) && len(avoid) == 0", "return sameRequest(old, p, avoid)", "", "", "recursive", 0},
+		{"predicate with a side effect", "pinEx", "\tif old == nil {\n", "\tlogger.Info(p)\n\tif old == nil {\n", "", "", "cannot see through", 0},
+		{"predicate with a loop", "pinEx", "\tif old == nil {\n", "\tfor range avoid {\n\t}\n\tif old == nil {\n", "", "", "cannot see through", 0},
+		{"argument with a call", "pinEx", "sameRequest(pin, existing, blacklist)", "sameRequest(pin, c.lookup(pin), blacklist)", "", "", "contains a call", 0},
+		{"helper assigns its parameter", "pinEx", "\tp.Allocations = allocs\n", "\tp = old\n", "", "", "assignment to its parameter", 0},
+		{"helper commits", "pinEx", "\tif len(p.Allocations) != 0 {\n\t\treturn nil\n", "\tif len(p.Allocations) != 0 {\n\t\treturn cl.consensus.LogPin(ctx, p)\n", "", "", "neither an error exit nor nil", 0},
+		{"helper with an error exit after its effect", "pinEx", "\tp.Allocations = allocs\n\treturn nil\n", "\tp.Allocations = allocs\n\treturn errors.New(\"late\")\n", "", "", "after an effect inside a conditional block", 0},
+		{"helper returns err unchecked", "pinEx", "\tif err != nil {\n\t\treturn err\n\t}\n\tp.Allocations = allocs\n\treturn nil\n", "\tp.Allocations = allocs\n\treturn err\n", "", "", "after an effect inside a conditional block", 0},
+		{"helper returns an err nobody set", "pinEx", "\t\treturn errFollowerMode\n\t}\n\treturn nil\n", "\t\treturn errFollowerMode\n\t}\n\treturn err\n", "", "", "not followed", 0},
+		{"helper with a loop", "pinEx", "\tp.Allocations = allocs\n", "\tfor range avoid {\n\t}\n\tp.Allocations = allocs\n", "", "", "the substitution does not copy", 0},
+		{"helper with a goto", "pinEx", "\tp.Allocations = allocs\n", "\tgoto end\n\tp.Allocations = allocs\n", "", "", "statement not understood", 0},
+		{"helper declares a name of the caller", "pinEx", "\terr := c.writable()\n", "\tallocs := 0\n\terr := c.writable()\n", "", "", "", 0},
+	}
+	// the last one: refused for either reason (the assignment or the clash)
+	last := muts[len(muts)-1]
+	muts = muts[:len(muts)-1]
+	if _, err := c04SelfSteps(strings.Replace(c04SelfHelpers, last.old, last.new, 1), last.fn); err == nil {
+		return fmt.Errorf("mutant %q: accepted", last.name)
+	}
+	return c04SelfMutants(c04SelfHelpers, want, muts)
 }
